@@ -436,6 +436,12 @@ namespace adept {
 	// Check there is space in the operation stack for n entries
 	ADEPT_ACTIVE_STACK->check_space(n);
 #endif
+	// Test the left-hand side before pushing anything, otherwise
+	// a failed call would leave orphaned operations on the stack
+	if (!(ADEPT_ACTIVE_STACK->update_lhs(gradient_index_))) {
+	  throw wrong_gradient("Wrong gradient: append_derivative_dependence called on a different aReal object from the most recent add_derivative_dependence call"
+			       ADEPT_EXCEPTION_LOCATION);
+	}
 	for (int i = 0; i < n; ++i) {
 	  Real mult = multiplier[i*multiplier_stride];
 	  if (mult != 0.0) {
@@ -445,10 +451,7 @@ namespace adept {
 					 rhs[i].gradient_index());
 	  }
 	}
-	if (!(ADEPT_ACTIVE_STACK->update_lhs(gradient_index_))) {
-	  throw wrong_gradient("Wrong gradient: append_derivative_dependence called on a different aReal object from the most recent add_derivative_dependence call"
-			       ADEPT_EXCEPTION_LOCATION);
-	}
+	ADEPT_ACTIVE_STACK->update_lhs(gradient_index_);
 #ifdef ADEPT_RECORDING_PAUSABLE
       }
 #endif
